@@ -1,7 +1,1227 @@
-(* Proofs/SimplifyProofs.v — proofs about Syntax/Simplify.v *)
+(* Proofs/SimplifyProofs.v -- proofs about Syntax/Simplify.v (property C04).
+   words: sw_scan vs dq_unescape, expansion preserved, returned bool;
+   arithmetic: value and side effects preserved (walk_arith_sound), totality of the fuel, returned bool;
+   tests: truth value preserved, returned bool; subshells: semantics preserved, returned bool;
+   a concrete decimal itoa/atoi instance of the arithmetic hypotheses. *)
 From Verif Require Import Base.Str Syntax.Simplify.
-From Coq Require Import ZifyN ZifyNat ZifyBool.
+From Coq Require Import ZifyN ZifyNat ZifyBool DecimalZ Decimal.
 Open Scope N_scope.
 
-Lemma placeholder_true : True.
-Proof. exact I. Qed.
+
+(* ---------------------------------------------------------------- words *)
+
+Lemma sw_scan_dq : forall v,
+  (forall nv, sw_scan v false = Some nv -> ends_escaped v false = false -> dq_unescape v = nv) /\
+  (forall nv, sw_scan v true = Some nv -> ends_escaped v true = false -> dq_unescape (BSL :: v) = nv).
+Proof.
+  induction v as [|r t [IHf IHt]]; split; intros nv Hs He.
+  - simpl in Hs. inversion Hs. reflexivity.
+  - simpl in He. discriminate.
+  - cbn [sw_scan] in Hs. cbn [ends_escaped] in He.
+    destruct (r =? BSL) eqn:Hb.
+    + apply N.eqb_eq in Hb. subst r. cbn [negb] in *. apply IHt; assumption.
+    + destruct (r =? SQ) eqn:Hq; [discriminate|].
+      assert (Hd : dq_unescape (r :: t) = r :: dq_unescape t).
+      { cbn [dq_unescape]. rewrite Hb. reflexivity. }
+      rewrite Hd.
+      destruct ((r =? DOLLAR) || (r =? DQ) || (r =? BQ)) eqn:Hsp.
+      * destruct (sw_scan t false) as [nv'|] eqn:Hs'; [|discriminate]. cbn in Hs. inversion Hs. subst nv.
+        f_equal. apply IHf; auto.
+      * cbn [negb] in Hs. destruct (sw_scan t false) as [nv'|] eqn:Hs'; [|discriminate]. cbn in Hs. inversion Hs. subst nv.
+        f_equal. apply IHf; auto.
+  - cbn [sw_scan] in Hs. cbn [ends_escaped] in He.
+    destruct (r =? BSL) eqn:Hb.
+    + apply N.eqb_eq in Hb. subst r. cbn [negb] in *.
+      destruct (sw_scan t false) as [nv'|] eqn:Hs'; [|discriminate]. cbn in Hs. inversion Hs. subst nv.
+      change (dq_unescape (BSL :: BSL :: t)) with (BSL :: dq_unescape t).
+      f_equal. apply IHf; auto.
+    + destruct (r =? SQ) eqn:Hq; [discriminate|].
+      destruct ((r =? DOLLAR) || (r =? DQ) || (r =? BQ)) eqn:Hsp; [|discriminate].
+      destruct (sw_scan t false) as [nv'|] eqn:Hs'; [|discriminate]. cbn in Hs. inversion Hs. subst nv.
+      assert (Hd : dq_unescape (BSL :: r :: t) = r :: dq_unescape t).
+      { cbn [dq_unescape]. change (BSL =? BSL) with true. cbn iota.
+        unfold dq_special. unfold DOLLAR, DQ, BQ, BSL in *.
+        destruct (r =? 34) eqn:E1; cbn [orb]; [reflexivity|].
+        destruct (r =? 92) eqn:E2; [discriminate|]. cbn [orb].
+        destruct (r =? 36) eqn:E3; cbn [orb] in *; [reflexivity|].
+        destruct (r =? 96) eqn:E4; cbn [orb] in *; [reflexivity|discriminate]. }
+      rewrite Hd. f_equal. apply IHf; auto.
+Qed.
+
+Lemma map_fst_quoted : forall s, map fst (quoted s) = s.
+Proof. induction s; simpl; congruence. Qed.
+Lemma map_fst_unquoted : forall s, map fst (unquoted s) = s.
+Proof. induction s; simpl; congruence. Qed.
+
+Lemma expand_q_cons : forall pval p w, expand_q pval (p :: w) = expand_wpart pval p ++ expand_q pval w.
+Proof. reflexivity. Qed.
+
+Lemma wf_word_cons : forall p w, wf_word (p :: w) = wf_wpart p && wf_word w.
+Proof. reflexivity. Qed.
+
+(* the quote-removed expansion (with quoting marks) of a word is unchanged *)
+Lemma simplify_word_expand : forall pval w,
+  wf_word w = true -> expand_q pval (fst (simplify_word w)) = expand_q pval w.
+Proof.
+  intros pval w. induction w as [|wp rest IH]; intros Hwf; [reflexivity|].
+  rewrite wf_word_cons in Hwf. apply andb_true_iff in Hwf. destruct Hwf as [Hp Hr].
+  cbn [simplify_word].
+  destruct wp as [s|d s|d ps|sh fl n]; try reflexivity.
+  destruct d; [reflexivity|].
+  destruct ps as [|[v|sh fl n] [|q ps']]; try reflexivity.
+  destruct (sw_scan v false) as [nv|] eqn:Hs.
+  - destruct (str_eqb nv v); [reflexivity|].
+    destruct (simplify_word rest) as [r m] eqn:Hr'. cbn [fst] in *.
+    rewrite !expand_q_cons. rewrite (IH Hr). f_equal.
+    cbn [expand_wpart flat_map expand_dpart]. rewrite app_nil_r.
+    f_equal. symmetry. apply (proj1 (sw_scan_dq v)); auto.
+    cbn [wf_wpart forallb wf_dpart] in Hp. rewrite andb_true_r in Hp.
+    apply negb_true_iff in Hp. exact Hp.
+  - destruct (simplify_word rest) as [r m] eqn:Hr'. cbn [fst] in *.
+    rewrite !expand_q_cons. rewrite (IH Hr). reflexivity.
+Qed.
+
+Lemma simplify_word_literal : forall pval w,
+  wf_word w = true -> literal pval (fst (simplify_word w)) = literal pval w.
+Proof. intros. unfold literal. rewrite simplify_word_expand; auto. Qed.
+
+(* the returned bool: false -> unchanged, true -> changed *)
+Lemma simplify_word_mod : forall w,
+  (snd (simplify_word w) = false -> fst (simplify_word w) = w) /\
+  (snd (simplify_word w) = true -> fst (simplify_word w) <> w).
+Proof.
+  induction w as [|wp rest [IHf IHt]]; [split; [reflexivity|discriminate]|].
+  cbn [simplify_word].
+  destruct wp as [s|d s|d ps|sh fl n]; try (split; [reflexivity|discriminate]).
+  destruct d; [split; [reflexivity|discriminate]|].
+  destruct ps as [|[v|sh fl n] [|q ps']]; try (split; [reflexivity|discriminate]).
+  destruct (sw_scan v false) as [nv|] eqn:Hs.
+  - destruct (str_eqb nv v); [split; [reflexivity|discriminate]|].
+    destruct (simplify_word rest) as [r m]. cbn [fst snd] in *.
+    split; [discriminate|]. intros _ H. discriminate.
+  - destruct (simplify_word rest) as [r m]. cbn [fst snd] in *.
+    split; intros Hm.
+    + f_equal. auto.
+    + intros H. inversion H. apply IHt; auto.
+Qed.
+
+Lemma simplify_word_wf : forall w, wf_word w = true -> wf_word (fst (simplify_word w)) = true.
+Proof.
+  induction w as [|wp rest IH]; intros Hwf; [reflexivity|].
+  rewrite wf_word_cons in Hwf. apply andb_true_iff in Hwf. destruct Hwf as [Hp Hr].
+  cbn [simplify_word].
+  assert (Hsame : wf_word (wp :: rest) = true) by (rewrite wf_word_cons, Hp, Hr; reflexivity).
+  destruct wp as [s|d s|d ps|sh fl n]; try exact Hsame.
+  destruct d; [exact Hsame|].
+  destruct ps as [|[v|sh fl n] [|q ps']]; try exact Hsame.
+  destruct (sw_scan v false) as [nv|] eqn:Hs.
+  - destruct (str_eqb nv v); [exact Hsame|].
+    destruct (simplify_word rest) as [r m]. cbn [fst] in *.
+    rewrite wf_word_cons. cbn [wf_wpart]. auto.
+  - destruct (simplify_word rest) as [r m]. cbn [fst] in *.
+    rewrite wf_word_cons, Hp. auto.
+Qed.
+
+(* the rewrite that the fix removed would have changed the expansion *)
+Lemma dollar_rewrite_differs :
+  let w := [WDbl true [DLit [97; 92; 92; 98]]] in   (* $"a\\b" *)
+  fst (simplify_word_prefix w) = [WSgl true [97; 92; 98]] /\    (* $'a\b' *)
+  forall pval, expand_q pval (fst (simplify_word_prefix w)) <> expand_q pval w.
+Proof.
+  split; [reflexivity|]. intros pval. vm_compute. discriminate.
+Qed.
+
+Lemma simplify_word_dollar_untouched : forall ps rest,
+  simplify_word (WDbl true ps :: rest) = (WDbl true ps :: rest, false).
+Proof. reflexivity. Qed.
+
+
+(* ---------------------------------------------------------------- arithmetic *)
+
+Lemma inline_cases : forall x,
+  inline_simple_params x = (x, false) \/
+  exists sh name, x = AWord [WParam sh 0 name] /\ valid_name name = true /\
+                  inline_simple_params x = (AWord [WLit name], true).
+Proof.
+  intros x. destruct x as [w|op post x|op x y|x]; try (left; reflexivity).
+  destruct w as [|[s|d s|d ps|sh fl n] [|q r]]; try (left; reflexivity).
+  cbn [inline_simple_params].
+  destruct (valid_name n) eqn:Hv; cbn [andb]; [|left; reflexivity].
+  destruct (fl =? 0) eqn:Hf; [|left; reflexivity].
+  apply N.eqb_eq in Hf. subst fl. right. exists sh, n. auto.
+Qed.
+
+Definition is_paren (e : aexpr) : bool := match e with AParen _ => true | _ => false end.
+
+Lemma rpa_not_paren : forall x, is_paren (fst (remove_parens_arithm x)) = false.
+Proof. induction x; try reflexivity. exact IHx. Qed.
+
+Lemma rpa_mod : forall x,
+  (snd (remove_parens_arithm x) = false -> fst (remove_parens_arithm x) = x) /\
+  (snd (remove_parens_arithm x) = true -> is_paren x = true).
+Proof. destruct x; cbn; split; auto; discriminate. Qed.
+
+Lemma rpa_wf : forall x, wf_arith x = true -> wf_arith (fst (remove_parens_arithm x)) = true.
+Proof. induction x; auto. Qed.
+
+Lemma rpa_size : forall x, (asize (fst (remove_parens_arithm x)) <= asize x)%nat.
+Proof. induction x; cbn [remove_parens_arithm fst asize]; lia. Qed.
+
+Lemma inline_wf : forall x, wf_arith x = true -> wf_arith (fst (inline_simple_params x)) = true.
+Proof.
+  intros x H. destruct (inline_cases x) as [E|(sh & n & Ex & Hv & E)]; rewrite E; auto.
+Qed.
+
+Lemma inline_size : forall x, asize (fst (inline_simple_params x)) = asize x.
+Proof.
+  intros x. destruct (inline_cases x) as [E|(sh & n & Ex & Hv & E)]; rewrite E; auto. subst x. reflexivity.
+Qed.
+
+Lemma inline_paren : forall x, is_paren (fst (inline_simple_params x)) = is_paren x.
+Proof.
+  intros x. destruct (inline_cases x) as [E|(sh & n & Ex & Hv & E)]; rewrite E; auto. subst x. reflexivity.
+Qed.
+
+Lemma lit_word_inline : forall x, is_lit_word x = true -> inline_simple_params x = (x, false).
+Proof.
+  intros x H. destruct x as [w| | |]; try discriminate.
+  destruct w as [|[s|d s|d ps|sh fl n] [|q r]]; try discriminate. reflexivity.
+Qed.
+
+Lemma lit_word_walk : forall f x r, is_lit_word x = true -> walk_arith f x = Some r -> r = (x, false).
+Proof.
+  intros f x r H Hw. destruct f; [discriminate|].
+  destruct x as [w| | |]; try discriminate.
+  destruct w as [|[s|d s|d ps|sh fl n] [|q r']]; try discriminate.
+  cbn in Hw. inversion Hw. reflexivity.
+Qed.
+
+Lemma walk_arith_paren : forall f e e' m, walk_arith f e = Some (e', m) -> is_paren e' = is_paren e.
+Proof.
+  intros f e e' m H. destruct f; [discriminate|]. cbn [walk_arith] in H.
+  destruct e as [w|op post x|op x y|x].
+  - destruct (simplify_word w). inversion H. reflexivity.
+  - destruct (walk_arith f x) as [[x' m']|]; inversion H. reflexivity.
+  - destruct (inline_simple_params x), (inline_simple_params y).
+    destruct (walk_arith f a) as [[? ?]|]; [|discriminate].
+    destruct (walk_arith f a0) as [[? ?]|]; inversion H. reflexivity.
+  - destruct (remove_parens_arithm x). destruct (inline_simple_params a).
+    destruct (walk_arith f a0) as [[? ?]|]; inversion H. reflexivity.
+Qed.
+
+Section ArithProofs.
+  Variable itoa : Z -> str.
+  Variable atoi : str -> Z.
+  Variable pother : N -> str -> aenv -> str.
+  Variable binop assignop : N -> Z -> Z -> res Z.
+  Variable unop : N -> Z -> res Z.
+  Hypothesis atoi_itoa : forall z, atoi (itoa z) = z.
+  Hypothesis itoa_not_name : forall z, valid_name (itoa z) = false.
+
+  Notation ev := (aeval itoa atoi pother binop assignop unop).
+  Definition aequiv (e e' : aexpr) : Prop := forall env, ev e' env = ev e env.
+
+  Lemma aequiv_refl : forall e, aequiv e e.
+  Proof. intros e env. reflexivity. Qed.
+  Lemma aequiv_trans : forall a b c, aequiv a b -> aequiv b c -> aequiv a c.
+  Proof. intros a b c H1 H2 env. rewrite H2, H1. reflexivity. Qed.
+
+  Lemma rpa_equiv : forall x, aequiv x (fst (remove_parens_arithm x)).
+  Proof.
+    induction x; try apply aequiv_refl.
+    intros env. cbn [remove_parens_arithm fst]. rewrite IHx. reflexivity.
+  Qed.
+
+  Lemma inline_equiv : forall x, aequiv x (fst (inline_simple_params x)).
+  Proof.
+    intros x. destruct (inline_cases x) as [E|(sh & n & Ex & Hv & E)]; rewrite E; [apply aequiv_refl|].
+    subst x. intros env. cbn [fst aeval].
+    unfold literal, expand_q. cbn [flat_map expand_wpart]. rewrite !app_nil_r.
+    rewrite !map_fst_unquoted. rewrite Hv.
+    unfold apval. change (0 =? 0) with true. cbn iota.
+    rewrite itoa_not_name, atoi_itoa. reflexivity.
+  Qed.
+
+  Definition shape (e e' : aexpr) : Prop :=
+    match e with
+    | ABin op a b => exists a' b', e' = ABin op a' b' /\ aequiv a a' /\ aequiv b b'
+    | _ => match e' with ABin _ _ _ => False | _ => True end
+    end.
+
+  Lemma walk_arith_sound : forall f e e' m,
+    walk_arith f e = Some (e', m) -> wf_arith e = true -> aequiv e e' /\ shape e e'.
+  Proof.
+    induction f as [|f IH]; intros e e' m H Hwf; [discriminate|].
+    cbn [walk_arith] in H.
+    destruct e as [w|op post x|op x y|x].
+    - (* AWord *)
+      destruct (simplify_word w) as [w' mw] eqn:Hw. inversion H. subst e' m. clear H.
+      split; [|exact I].
+      intros env. cbn [aeval]. cbn [wf_arith] in Hwf.
+      replace w' with (fst (simplify_word w)) by (rewrite Hw; reflexivity).
+      rewrite simplify_word_literal by assumption. reflexivity.
+    - (* AUn *)
+      destruct (walk_arith f x) as [[x' mx]|] eqn:Hx; [|discriminate]. inversion H. subst e' m. clear H.
+      split; [|exact I].
+      cbn [wf_arith] in Hwf. apply andb_true_iff in Hwf. destruct Hwf as [Hlit Hwx].
+      intros env. cbn [aeval].
+      destruct (un_incdec op) eqn:Hop.
+      + try rewrite Hop in Hlit. apply lit_word_walk in Hx; [|assumption]. inversion Hx. reflexivity.
+      + destruct (IH _ _ _ Hx Hwx) as [Heq _]. rewrite Heq. reflexivity.
+    - (* ABin *)
+      cbn [wf_arith] in Hwf. apply andb_true_iff in Hwf. destruct Hwf as [Hwf Hwy].
+      apply andb_true_iff in Hwf. destruct Hwf as [Hlit Hwx].
+      destruct (inline_simple_params x) as [x1 m1] eqn:Hix.
+      destruct (inline_simple_params y) as [y1 m2] eqn:Hiy.
+      destruct (walk_arith f x1) as [[x2 m3]|] eqn:Hx; [|discriminate].
+      destruct (walk_arith f y1) as [[y2 m4]|] eqn:Hy; [|discriminate].
+      inversion H. subst e' m. clear H.
+      assert (Hwx1 : wf_arith x1 = true) by (pose proof (inline_wf x Hwx) as P; rewrite Hix in P; exact P).
+      assert (Hwy1 : wf_arith y1 = true) by (pose proof (inline_wf y Hwy) as P; rewrite Hiy in P; exact P).
+      assert (Exi : aequiv x x1) by (pose proof (inline_equiv x) as P; rewrite Hix in P; exact P).
+      assert (Eyi : aequiv y y1) by (pose proof (inline_equiv y) as P; rewrite Hiy in P; exact P).
+      destruct (IH _ _ _ Hx Hwx1) as [Ex2 Sx2].
+      destruct (IH _ _ _ Hy Hwy1) as [Ey2 Sy2].
+      assert (Ex : aequiv x x2) by (eapply aequiv_trans; eassumption).
+      assert (Ey : aequiv y y2) by (eapply aequiv_trans; eassumption).
+      split; [|exists x2, y2; auto].
+      intros env. cbn [aeval].
+      destruct (bin_assign op) eqn:Hop.
+      + (* assignment: the left operand is a literal word and stays as it is *)
+        try rewrite Hop in Hlit. rewrite (lit_word_inline x Hlit) in Hix. inversion Hix. subst x1 m1.
+        apply lit_word_walk in Hx; [|assumption]. inversion Hx. subst x2 m3.
+        destruct x as [w| | |]; try discriminate.
+        rewrite Ey. reflexivity.
+      + destruct (op =? OP_QUEST) eqn:Hq.
+        * rewrite Ex. destruct (ev x env) as [[cond env1]| |]; try reflexivity.
+          (* the shape of y decides *)
+          destruct y as [yw|yop ypost yx|yop ya yb|yx].
+          -- destruct (inline_cases (AWord yw)) as [E|(sh & n & Eyw & Hv & E)]; rewrite E in Hiy; inversion Hiy; subst y1 m2;
+               cbn [shape] in Sy2; destruct y2; try reflexivity; contradiction.
+          -- cbn in Hiy. inversion Hiy. subst y1 m2. cbn [shape] in Sy2. destruct y2; try reflexivity; contradiction.
+          -- cbn in Hiy. inversion Hiy. subst y1 m2. cbn [shape] in Sy2.
+             destruct Sy2 as (a' & b' & Ey2' & Ea & Eb). subst y2.
+             rewrite Ea, Eb. reflexivity.
+          -- cbn in Hiy. inversion Hiy. subst y1 m2. cbn [shape] in Sy2. destruct y2; try reflexivity; contradiction.
+        * destruct ((op =? OP_ANDARIT) || (op =? OP_ORARIT)) eqn:Hao.
+          -- rewrite Ex. destruct (ev x env) as [[l env1]| |]; try reflexivity.
+             rewrite Ey. reflexivity.
+          -- rewrite Ex. destruct (ev x env) as [[l env1]| |]; try reflexivity.
+             rewrite Ey. reflexivity.
+    - (* AParen *)
+      cbn [wf_arith] in Hwf.
+      destruct (remove_parens_arithm x) as [x1 m1] eqn:Hrx.
+      destruct (inline_simple_params x1) as [x2 m2] eqn:Hix.
+      destruct (walk_arith f x2) as [[x3 m3]|] eqn:Hx; [|discriminate].
+      inversion H. subst e' m. clear H.
+      assert (Hw1 : wf_arith x1 = true) by (pose proof (rpa_wf x Hwf) as P; rewrite Hrx in P; exact P).
+      assert (Hw2 : wf_arith x2 = true) by (pose proof (inline_wf x1 Hw1) as P; rewrite Hix in P; exact P).
+      assert (E1 : aequiv x x1) by (pose proof (rpa_equiv x) as P; rewrite Hrx in P; exact P).
+      assert (E2 : aequiv x1 x2) by (pose proof (inline_equiv x1) as P; rewrite Hix in P; exact P).
+      destruct (IH _ _ _ Hx Hw2) as [E3 _].
+      split; [|exact I].
+      intros env. cbn [aeval]. rewrite E3, E2, E1. reflexivity.
+  Qed.
+
+  Lemma walk_arith_total : forall f e, (asize e <= f)%nat -> exists r, walk_arith f e = Some r.
+  Proof.
+    induction f as [|f IH]; intros e Hs; [destruct e; cbn in Hs; lia|].
+    destruct e as [w|op post x|op x y|x]; cbn [walk_arith asize] in *.
+    - destruct (simplify_word w). eauto.
+    - destruct (IH x) as [[x' m'] Hx]; [lia|]. rewrite Hx. eauto.
+    - destruct (inline_simple_params x) as [x1 m1] eqn:Hix.
+      destruct (inline_simple_params y) as [y1 m2] eqn:Hiy.
+      assert (asize x1 = asize x) by (replace x1 with (fst (inline_simple_params x)) by (rewrite Hix; reflexivity); apply inline_size).
+      assert (asize y1 = asize y) by (replace y1 with (fst (inline_simple_params y)) by (rewrite Hiy; reflexivity); apply inline_size).
+      destruct (IH x1) as [[x2 m3] Hx]; [lia|]. destruct (IH y1) as [[y2 m4] Hy]; [lia|].
+      rewrite Hx, Hy. eauto.
+    - destruct (remove_parens_arithm x) as [x1 m1] eqn:Hrx.
+      destruct (inline_simple_params x1) as [x2 m2] eqn:Hix.
+      assert (asize x1 <= asize x)%nat by (replace x1 with (fst (remove_parens_arithm x)) by (rewrite Hrx; reflexivity); apply rpa_size).
+      assert (asize x2 = asize x1) by (replace x2 with (fst (inline_simple_params x1)) by (rewrite Hix; reflexivity); apply inline_size).
+      destruct (IH x2) as [[x3 m3] Hx]; [lia|]. rewrite Hx. eauto.
+  Qed.
+
+  (* the holder level: value and side effects of the simplified expression *)
+  Theorem simplify_arith_sound : forall parens inline e,
+    wf_arith e = true ->
+    exists e' m, simplify_arith parens inline e = Some (e', m) /\
+                 forall env, ev e' env = ev e env.
+  Proof.
+    intros parens inline e Hwf. unfold simplify_arith, simplify_arith_fuel.
+    destruct (if parens then remove_parens_arithm e else (e, false)) as [x1 m1] eqn:H1.
+    destruct (if inline then inline_simple_params x1 else (x1, false)) as [x2 m2] eqn:H2.
+    assert (Hw1 : wf_arith x1 = true /\ aequiv e x1 /\ (asize x1 <= asize e)%nat).
+    { destruct parens.
+      - pose proof (rpa_wf e Hwf) as P1. pose proof (rpa_equiv e) as P2. pose proof (rpa_size e) as P3.
+        rewrite H1 in P1, P2, P3. auto.
+      - inversion H1; subst. split; [assumption|]. split; [apply aequiv_refl|lia]. }
+    destruct Hw1 as (Hw1 & E1 & S1).
+    assert (Hw2 : wf_arith x2 = true /\ aequiv x1 x2 /\ asize x2 = asize x1).
+    { destruct inline.
+      - pose proof (inline_wf x1 Hw1) as P1. pose proof (inline_equiv x1) as P2. pose proof (inline_size x1) as P3.
+        rewrite H2 in P1, P2, P3. auto.
+      - inversion H2; subst. auto using aequiv_refl. }
+    destruct Hw2 as (Hw2 & E2 & S2).
+    destruct (walk_arith_total (asize e) x2) as [[x3 m3] Hx]; [lia|].
+    rewrite Hx. exists x3, (m1 || m2 || m3). split; [reflexivity|].
+    destruct (walk_arith_sound _ _ _ _ Hx Hw2) as [E3 _].
+    intros env. rewrite E3, E2, E1. reflexivity.
+  Qed.
+End ArithProofs.
+
+
+(* ------------------------------------------------ the returned bool, arithmetic *)
+
+Definition mod_spec {A} (x r : A) (m : bool) : Prop := (m = false -> r = x) /\ (m = true -> r <> x).
+
+Lemma paren_neq : forall a b, is_paren a <> is_paren b -> a <> b.
+Proof. intros a b H E. subst. auto. Qed.
+
+Lemma inline_walk_chain : forall f,
+  (forall e e' m, walk_arith f e = Some (e', m) -> mod_spec e e' m) ->
+  forall x x1 m1 x2 m3,
+    inline_simple_params x = (x1, m1) -> walk_arith f x1 = Some (x2, m3) -> mod_spec x x2 (m1 || m3).
+Proof.
+  intros f IH x x1 m1 x2 m3 Hi Hw.
+  destruct (inline_cases x) as [E|(sh & n & Ex & Hv & E)]; rewrite E in Hi; inversion Hi; subst x1 m1.
+  - cbn [orb]. eapply IH; eauto.
+  - apply lit_word_walk in Hw; [|reflexivity]. inversion Hw. subst x2 m3 x.
+    split; [discriminate|]. intros _ H. discriminate.
+Qed.
+
+Lemma walk_arith_mod : forall f e e' m, walk_arith f e = Some (e', m) -> mod_spec e e' m.
+Proof.
+  induction f as [|f IH]; intros e e' m H; [discriminate|].
+  cbn [walk_arith] in H.
+  destruct e as [w|op post x|op x y|x].
+  - destruct (simplify_word w) as [w' mw] eqn:Hw. inversion H. subst e' m.
+    destruct (simplify_word_mod w) as [Hf Ht]. rewrite Hw in Hf, Ht. cbn [fst snd] in *.
+    split; intros Hm.
+    + f_equal. auto.
+    + intros E. inversion E. apply Ht; auto.
+  - destruct (walk_arith f x) as [[x' mx]|] eqn:Hx; [|discriminate]. inversion H. subst e' m.
+    destruct (IH _ _ _ Hx) as [Hf Ht].
+    split; intros Hm.
+    + f_equal. auto.
+    + intros E. inversion E. apply Ht; auto.
+  - destruct (inline_simple_params x) as [x1 m1] eqn:Hix.
+    destruct (inline_simple_params y) as [y1 m2] eqn:Hiy.
+    destruct (walk_arith f x1) as [[x2 m3]|] eqn:Hx; [|discriminate].
+    destruct (walk_arith f y1) as [[y2 m4]|] eqn:Hy; [|discriminate].
+    inversion H. subst e' m.
+    destruct (inline_walk_chain f IH _ _ _ _ _ Hix Hx) as [Hxf Hxt].
+    destruct (inline_walk_chain f IH _ _ _ _ _ Hiy Hy) as [Hyf Hyt].
+    split; intros Hm.
+    + assert (m1 || m3 = false /\ m2 || m4 = false) as [A B] by (destruct m1, m2, m3, m4; cbn in *; auto; discriminate).
+      f_equal; auto.
+    + intros E. inversion E.
+      destruct (m1 || m3) eqn:A; [apply Hxt; auto|].
+      destruct (m2 || m4) eqn:B; [apply Hyt; auto|].
+      destruct m1, m2, m3, m4; cbn in *; discriminate.
+  - destruct (remove_parens_arithm x) as [x1 m1] eqn:Hrx.
+    destruct (inline_simple_params x1) as [x2 m2] eqn:Hix.
+    destruct (walk_arith f x2) as [[x3 m3]|] eqn:Hx; [|discriminate].
+    inversion H. subst e' m.
+    destruct (inline_walk_chain f IH _ _ _ _ _ Hix Hx) as [Hf Ht].
+    destruct (rpa_mod x) as [Rf Rt]. rewrite Hrx in Rf, Rt. cbn [fst snd] in *.
+    destruct m1.
+    + split; [discriminate|]. intros _ E. inversion E.
+      assert (P3 : is_paren x3 = false).
+      { rewrite (walk_arith_paren _ _ _ _ Hx).
+        pose proof (inline_paren x1) as P. rewrite Hix in P. cbn [fst] in P. rewrite P.
+        pose proof (rpa_not_paren x) as Q. rewrite Hrx in Q. exact Q. }
+      rewrite H1 in P3. rewrite Rt in P3; [discriminate|reflexivity].
+    + rewrite (Rf eq_refl) in *. cbn [orb].
+      split; intros Hm.
+      * f_equal. auto.
+      * intros E. inversion E. apply Ht; auto.
+Qed.
+
+Theorem simplify_arith_mod : forall parens inline e e' m,
+  simplify_arith parens inline e = Some (e', m) -> (m = true <-> e' <> e).
+Proof.
+  intros parens inline e e' m H. unfold simplify_arith, simplify_arith_fuel in H.
+  destruct (if parens then remove_parens_arithm e else (e, false)) as [x1 m1] eqn:H1.
+  destruct (if inline then inline_simple_params x1 else (x1, false)) as [x2 m2] eqn:H2.
+  destruct (walk_arith (asize e) x2) as [[x3 m3]|] eqn:Hx; [|discriminate].
+  inversion H. subst e' m. clear H.
+  assert (C : mod_spec x1 x3 (m2 || m3)).
+  { destruct inline.
+    - eapply inline_walk_chain; eauto. intros; eapply walk_arith_mod; eauto.
+    - inversion H2. subst x2 m2. cbn [orb]. eapply walk_arith_mod; eauto. }
+  destruct C as [Cf Ct].
+  assert (S : mod_spec e x3 (m1 || m2 || m3)).
+  { destruct parens.
+    - destruct (rpa_mod e) as [Rf Rt]. rewrite H1 in Rf, Rt. cbn [fst snd] in *.
+      destruct m1.
+      + split; [discriminate|]. intros _ E.
+        assert (P3 : is_paren x3 = false).
+        { rewrite (walk_arith_paren _ _ _ _ Hx).
+          assert (is_paren x2 = is_paren x1).
+          { destruct inline; [|inversion H2; reflexivity].
+            pose proof (inline_paren x1) as P. rewrite H2 in P. exact P. }
+          rewrite H. pose proof (rpa_not_paren e) as Q. rewrite H1 in Q. exact Q. }
+        rewrite E in P3. rewrite Rt in P3; [discriminate|reflexivity].
+      + rewrite (Rf eq_refl) in *. cbn [orb]. split; auto.
+    - inversion H1. subst x1 m1. cbn [orb]. split; auto. }
+  destruct S as [Sf St]. split; [exact St|].
+  intros Hne. destruct (m1 || m2 || m3); [reflexivity|]. exfalso. apply Hne. auto.
+Qed.
+
+
+(* ---------------------------------------------------------------- [[ ]] tests *)
+
+Lemma unquote_cases : forall x,
+  unquote_params x = (x, false) \/
+  exists d sh fl n, x = TWord [WDbl d [DParam sh fl n]] /\ unquote_params x = (TWord [WParam sh fl n], true).
+Proof.
+  intros x. destruct x as [w|op x|op x y|x]; try (left; reflexivity).
+  destruct w as [|[s|d s|d [|[v|sh fl n] [|q ps']]|sh fl n] [|q' r]]; try (left; reflexivity).
+  right. exists d, sh, fl, n. auto.
+Qed.
+
+Inductive rnt_case (x : texpr) : texpr -> bool -> Prop :=
+| RntSame : rnt_case x x false
+| RntEmp : forall y, x = TUn T_NOT (TUn T_EMP y) -> rnt_case x (TUn T_NEMP y) true
+| RntNemp : forall y, x = TUn T_NOT (TUn T_NEMP y) -> rnt_case x (TUn T_EMP y) true
+| RntNot : forall y, x = TUn T_NOT (TUn T_NOT y) -> rnt_case x y true
+| RntMatch : forall a b, x = TUn T_NOT (TBin T_MATCH a b) -> rnt_case x (TBin T_NOMATCH a b) true
+| RntNoMatch : forall a b, x = TUn T_NOT (TBin T_NOMATCH a b) -> rnt_case x (TBin T_MATCH a b) true.
+
+Lemma rnt_cases : forall x, rnt_case x (fst (remove_negate_test x)) (snd (remove_negate_test x)).
+Proof.
+  intros x. destruct x as [w|op x|op x y|x]; try apply RntSame.
+  destruct x as [w|op2 y|op2 a b|y]; try apply RntSame; cbn [remove_negate_test].
+  - destruct (op =? T_NOT) eqn:E0; [|apply RntSame]. apply N.eqb_eq in E0. subst op.
+    destruct (op2 =? T_EMP) eqn:E1; [apply N.eqb_eq in E1; subst; apply RntEmp; reflexivity|].
+    destruct (op2 =? T_NEMP) eqn:E2; [apply N.eqb_eq in E2; subst; apply RntNemp; reflexivity|].
+    destruct (op2 =? T_NOT) eqn:E3; [apply N.eqb_eq in E3; subst; apply RntNot; reflexivity|].
+    apply RntSame.
+  - destruct (op =? T_NOT) eqn:E0; [|apply RntSame]. apply N.eqb_eq in E0. subst op.
+    destruct (op2 =? T_MATCH) eqn:E1; [apply N.eqb_eq in E1; subst; apply RntMatch; reflexivity|].
+    destruct (op2 =? T_NOMATCH) eqn:E2; [apply N.eqb_eq in E2; subst; apply RntNoMatch; reflexivity|].
+    apply RntSame.
+Qed.
+
+Definition is_tparen (e : texpr) : bool := match e with TParen _ => true | _ => false end.
+
+Lemma rpt_not_paren : forall x, is_tparen (fst (remove_parens_test x)) = false.
+Proof. induction x; try reflexivity. exact IHx. Qed.
+Lemma rpt_mod : forall x,
+  (snd (remove_parens_test x) = false -> fst (remove_parens_test x) = x) /\
+  (snd (remove_parens_test x) = true -> (tsize (fst (remove_parens_test x)) < tsize x)%nat).
+Proof.
+  destruct x; cbn [remove_parens_test fst snd tsize]; split; auto; try discriminate.
+  intros _. clear. induction x; cbn [remove_parens_test fst tsize]; lia.
+Qed.
+Lemma rpt_size : forall x, (tsize (fst (remove_parens_test x)) <= tsize x)%nat.
+Proof. induction x; cbn [remove_parens_test fst tsize]; lia. Qed.
+Lemma rpt_wf : forall x, wf_test x = true -> wf_test (fst (remove_parens_test x)) = true.
+Proof. induction x; auto. Qed.
+
+Lemma rnt_wf : forall x, wf_test x = true -> wf_test (fst (remove_negate_test x)) = true.
+Proof.
+  intros x H. destruct (rnt_cases x); auto; subst x; cbn [wf_test] in *; auto.
+Qed.
+Lemma rnt_size : forall x,
+  (tsize (fst (remove_negate_test x)) <= tsize x)%nat /\
+  (snd (remove_negate_test x) = true -> (tsize (fst (remove_negate_test x)) < tsize x)%nat) /\
+  (snd (remove_negate_test x) = false -> fst (remove_negate_test x) = x).
+Proof.
+  intros x. destruct (rnt_cases x); try subst x; cbn [tsize]; repeat split; auto; try lia; try discriminate.
+Qed.
+
+Lemma unquote_wf : forall x, wf_test x = true -> wf_test (fst (unquote_params x)) = true.
+Proof.
+  intros x H. destruct (unquote_cases x) as [E|(d & sh & fl & n & Ex & E)]; rewrite E; auto.
+Qed.
+Lemma unquote_size : forall x, tsize (fst (unquote_params x)) = tsize x.
+Proof.
+  intros x. destruct (unquote_cases x) as [E|(d & sh & fl & n & Ex & E)]; rewrite E; auto. subst; reflexivity.
+Qed.
+
+Lemma walk_test_word : forall f w r, walk_test f (TWord w) = Some r ->
+  r = (TWord (fst (simplify_word w)), snd (simplify_word w)).
+Proof.
+  intros f w r H. destruct f; [discriminate|]. cbn in H. destruct (simplify_word w). inversion H. reflexivity.
+Qed.
+
+Lemma walk_test_size : forall f e e' m, walk_test f e = Some (e', m) -> (tsize e' <= tsize e)%nat.
+Proof.
+  induction f as [|f IH]; intros e e' m H; [discriminate|].
+  cbn [walk_test] in H. destruct e as [w|op x|op x y|x].
+  - destruct (simplify_word w). inversion H. cbn. lia.
+  - destruct (unquote_params x) as [x1 m1] eqn:H1.
+    destruct (walk_test f x1) as [[x2 m2]|] eqn:H2; [|discriminate]. inversion H. subst.
+    pose proof (unquote_size x) as S1. rewrite H1 in S1. cbn [fst] in S1.
+    apply IH in H2. cbn [tsize]. lia.
+  - destruct (unquote_params x) as [x1 m1] eqn:H1.
+    destruct (remove_negate_test x1) as [x2 m2] eqn:H2.
+    destruct (if op =? T_MATCHSHORT then (T_MATCH, true) else (op, false)) as [op1 m3].
+    destruct (if (op1 =? T_MATCH) || (op1 =? T_NOMATCH) || (op1 =? T_REMATCH) then (y, false) else unquote_params y) as [y1 m4] eqn:H4.
+    destruct (remove_negate_test y1) as [y2 m5] eqn:H5.
+    destruct (walk_test f x2) as [[x3 m6]|] eqn:H6; [|discriminate].
+    destruct (walk_test f y2) as [[y3 m7]|] eqn:H7; [|discriminate].
+    inversion H. subst.
+    pose proof (unquote_size x) as S1. rewrite H1 in S1. cbn [fst] in S1.
+    pose proof (proj1 (rnt_size x1)) as S2. rewrite H2 in S2. cbn [fst] in S2.
+    assert (S4 : tsize y1 = tsize y).
+    { destruct ((op1 =? T_MATCH) || (op1 =? T_NOMATCH) || (op1 =? T_REMATCH)); [inversion H4; reflexivity|].
+      pose proof (unquote_size y) as S. rewrite H4 in S. exact S. }
+    pose proof (proj1 (rnt_size y1)) as S5. rewrite H5 in S5. cbn [fst] in S5.
+    apply IH in H6. apply IH in H7. cbn [tsize]. lia.
+  - destruct (remove_parens_test x) as [x1 m1] eqn:H1.
+    destruct (remove_negate_test x1) as [x2 m2] eqn:H2.
+    destruct (walk_test f x2) as [[x3 m3]|] eqn:H3; [|discriminate]. inversion H. subst.
+    pose proof (rpt_size x) as S1. rewrite H1 in S1. cbn [fst] in S1.
+    pose proof (proj1 (rnt_size x1)) as S2. rewrite H2 in S2. cbn [fst] in S2.
+    apply IH in H3. cbn [tsize]. lia.
+Qed.
+
+Lemma size_neq : forall a b, (tsize a < tsize b)%nat -> a <> b.
+Proof. intros a b H E. subst. lia. Qed.
+
+(* chains used by the visit cases: [unquote;] removeNegate; walk *)
+Lemma rnt_walk_chain : forall f,
+  (forall e e' m, walk_test f e = Some (e', m) -> mod_spec e e' m) ->
+  forall x1 x2 m2 x3 m3,
+    remove_negate_test x1 = (x2, m2) -> walk_test f x2 = Some (x3, m3) ->
+    mod_spec x1 x3 (m2 || m3) /\ (tsize x3 <= tsize x1)%nat.
+Proof.
+  intros f IH x1 x2 m2 x3 m3 H2 H3.
+  pose proof (rnt_size x1) as (S & St & Sf). rewrite H2 in S, St, Sf. cbn [fst snd] in *.
+  pose proof (walk_test_size _ _ _ _ H3) as S3.
+  split; [|lia].
+  destruct m2.
+  - split; [discriminate|]. intros _. apply size_neq. specialize (St eq_refl). lia.
+  - rewrite (Sf eq_refl) in *. cbn [orb]. eapply IH; eauto.
+Qed.
+
+Lemma unquote_rnt_walk_chain : forall f,
+  (forall e e' m, walk_test f e = Some (e', m) -> mod_spec e e' m) ->
+  forall x x1 m1 x2 m2 x3 m3,
+    unquote_params x = (x1, m1) -> remove_negate_test x1 = (x2, m2) -> walk_test f x2 = Some (x3, m3) ->
+    mod_spec x x3 (m1 || m2 || m3).
+Proof.
+  intros f IH x x1 m1 x2 m2 x3 m3 H1 H2 H3.
+  destruct (unquote_cases x) as [E|(d & sh & fl & n & Ex & E)]; rewrite E in H1; inversion H1; subst x1 m1.
+  - cbn [orb]. eapply rnt_walk_chain; eauto.
+  - cbn in H2. inversion H2. subst x2 m2.
+    apply walk_test_word in H3. cbn in H3. inversion H3. subst x3 m3 x.
+    split; [discriminate|]. intros _ H. discriminate.
+Qed.
+
+Lemma walk_test_mod : forall f e e' m, walk_test f e = Some (e', m) -> mod_spec e e' m.
+Proof.
+  induction f as [|f IH]; intros e e' m H; [discriminate|].
+  cbn [walk_test] in H. destruct e as [w|op x|op x y|x].
+  - destruct (simplify_word w) as [w' mw] eqn:Hw. inversion H. subst e' m.
+    destruct (simplify_word_mod w) as [Hf Ht]. rewrite Hw in Hf, Ht. cbn [fst snd] in *.
+    split; intros Hm; [f_equal; auto|]. intros E. inversion E. apply Ht; auto.
+  - destruct (unquote_params x) as [x1 m1] eqn:H1.
+    destruct (walk_test f x1) as [[x2 m2]|] eqn:H2; [|discriminate]. inversion H. subst e' m.
+    destruct (unquote_cases x) as [E|(d & sh & fl & n & Ex & E)]; rewrite E in H1; inversion H1; subst x1 m1.
+    + cbn [orb]. destruct (IH _ _ _ H2) as [Hf Ht].
+      split; intros Hm; [f_equal; auto|]. intros E'. inversion E'. apply Ht; auto.
+    + apply walk_test_word in H2. cbn in H2. inversion H2. subst x2 m2 x.
+      split; [discriminate|]. intros _ E'. discriminate.
+  - destruct (unquote_params x) as [x1 m1] eqn:H1.
+    destruct (remove_negate_test x1) as [x2 m2] eqn:H2.
+    destruct (if op =? T_MATCHSHORT then (T_MATCH, true) else (op, false)) as [op1 m3] eqn:H3.
+    destruct (if (op1 =? T_MATCH) || (op1 =? T_NOMATCH) || (op1 =? T_REMATCH) then (y, false) else unquote_params y) as [y1 m4] eqn:H4.
+    destruct (remove_negate_test y1) as [y2 m5] eqn:H5.
+    destruct (walk_test f x2) as [[x3 m6]|] eqn:H6; [|discriminate].
+    destruct (walk_test f y2) as [[y3 m7]|] eqn:H7; [|discriminate].
+    inversion H. subst e' m.
+    destruct (unquote_rnt_walk_chain f IH _ _ _ _ _ _ _ H1 H2 H6) as [Xf Xt].
+    assert (Y : mod_spec y y3 (m4 || m5 || m7)).
+    { destruct ((op1 =? T_MATCH) || (op1 =? T_NOMATCH) || (op1 =? T_REMATCH)).
+      - inversion H4. subst y1 m4. cbn [orb]. eapply rnt_walk_chain; eauto.
+      - eapply unquote_rnt_walk_chain; eauto. }
+    destruct Y as [Yf Yt].
+    assert (O : mod_spec op op1 m3).
+    { destruct (op =? T_MATCHSHORT) eqn:E; inversion H3; subst.
+      - apply N.eqb_eq in E. subst op. split; [discriminate|]. intros _ E'. discriminate.
+      - split; auto. discriminate. }
+    destruct O as [Of Ot].
+    split; intros Hm.
+    + assert (m1 || m2 || m6 = false /\ m4 || m5 || m7 = false /\ m3 = false) as (A & B & C)
+        by (destruct m1, m2, m3, m4, m5, m6, m7; cbn in *; auto; discriminate).
+      f_equal; auto.
+    + intros E'. inversion E'.
+      destruct (m1 || m2 || m6) eqn:A; [apply Xt; auto|].
+      destruct (m4 || m5 || m7) eqn:B; [apply Yt; auto|].
+      destruct m3; [apply Ot; auto|].
+      destruct m1, m2, m4, m5, m6, m7; cbn in *; discriminate.
+  - destruct (remove_parens_test x) as [x1 m1] eqn:H1.
+    destruct (remove_negate_test x1) as [x2 m2] eqn:H2.
+    destruct (walk_test f x2) as [[x3 m3]|] eqn:H3; [|discriminate]. inversion H. subst e' m.
+    destruct (rnt_walk_chain f IH _ _ _ _ _ H2 H3) as [[Cf Ct] CS].
+    destruct (rpt_mod x) as [Rf Rt]. rewrite H1 in Rf, Rt. cbn [fst snd] in *.
+    destruct m1.
+    + split; [discriminate|]. intros _ E. inversion E. specialize (Rt eq_refl). subst x3. lia.
+    + rewrite (Rf eq_refl) in *. cbn [orb].
+      split; intros Hm; [f_equal; auto|]. intros E. inversion E. apply Ct; auto.
+Qed.
+
+Theorem simplify_test_mod : forall e e' m, simplify_test e = Some (e', m) -> (m = true <-> e' <> e).
+Proof.
+  intros e e' m H. unfold simplify_test, simplify_test_fuel in H.
+  destruct (remove_parens_test e) as [x1 m1] eqn:H1.
+  destruct (remove_negate_test x1) as [x2 m2] eqn:H2.
+  destruct (walk_test (tsize e) x2) as [[x3 m3]|] eqn:H3; [|discriminate]. inversion H. subst e' m.
+  destruct (rnt_walk_chain _ (walk_test_mod (tsize e)) _ _ _ _ _ H2 H3) as [[Cf Ct] CS].
+  destruct (rpt_mod e) as [Rf Rt]. rewrite H1 in Rf, Rt. cbn [fst snd] in *.
+  assert (S : mod_spec e x3 (m1 || m2 || m3)).
+  { destruct m1.
+    - split; [discriminate|]. intros _ E. specialize (Rt eq_refl). subst x3. lia.
+    - rewrite (Rf eq_refl) in *. cbn [orb]. split; auto. }
+  destruct S as [Sf St]. split; [exact St|].
+  intros Hne. destruct (m1 || m2 || m3); [reflexivity|]. exfalso. apply Hne. auto.
+Qed.
+
+
+Section TestProofs.
+  Variable pval : bool -> N -> str -> str.
+  Variable pmatch : qstr -> str -> bool.
+  Variable untest_o : N -> str -> bool.
+  Variable bintest_o : N -> str -> str -> bool.
+
+  Notation tev := (teval pval pmatch untest_o bintest_o).
+  Notation lit := (literal pval).
+
+  (* refinement: whenever the original has a truth value, the result has the same *)
+  Definition tequiv (e e' : texpr) : Prop := forall b, tev e = Ok b -> tev e' = Ok b.
+
+  Lemma tequiv_refl : forall e, tequiv e e.
+  Proof. intros e b H. exact H. Qed.
+  Lemma tequiv_trans : forall a b c, tequiv a b -> tequiv b c -> tequiv a c.
+  Proof. intros a b c H1 H2 v H. auto. Qed.
+
+  Lemma rpt_equiv : forall x, tequiv x (fst (remove_parens_test x)).
+  Proof.
+    induction x; try apply tequiv_refl. intros b H. cbn [remove_parens_test fst]. apply IHx. exact H.
+  Qed.
+
+  Lemma unquote_lit : forall d sh fl n, lit [WDbl d [DParam sh fl n]] = lit [WParam sh fl n].
+  Proof.
+    intros. unfold literal, expand_q. cbn [flat_map expand_wpart expand_dpart].
+    rewrite !app_nil_r. rewrite map_fst_quoted, map_fst_unquoted. reflexivity.
+  Qed.
+
+  Lemma unquote_equiv : forall x, tequiv x (fst (unquote_params x)).
+  Proof.
+    intros x. destruct (unquote_cases x) as [E|(d & sh & fl & n & Ex & E)]; rewrite E; [apply tequiv_refl|].
+    subst x. intros b H. cbn [fst teval] in *. rewrite <- unquote_lit with (d := d). exact H.
+  Qed.
+
+  (* word operands: the unquoted word has the same literal expansion *)
+  Lemma unquote_word : forall w, exists w', fst (unquote_params (TWord w)) = TWord w' /\ lit w' = lit w /\ wf_word w' = wf_word w.
+  Proof.
+    intros w. destruct (unquote_cases (TWord w)) as [E|(d & sh & fl & n & Ex & E)]; rewrite E.
+    - exists w. auto.
+    - inversion Ex. subst w. exists [WParam sh fl n]. cbn [fst]. split; [reflexivity|].
+      split; [symmetry; apply unquote_lit|reflexivity].
+  Qed.
+
+  Lemma negb_negb_ok : forall (r : res bool) b,
+    match match r with Ok b0 => Ok (negb b0) | Err c => Err c | Panic => Panic end with
+    | Ok b0 => Ok (negb b0) | Err c => Err c | Panic => Panic end = Ok b -> r = Ok b.
+  Proof. intros [b0|c|] b H; try discriminate. inversion H. rewrite negb_involutive. reflexivity. Qed.
+
+  Lemma rnt_equiv : forall x, tequiv x (fst (remove_negate_test x)).
+  Proof.
+    intros x. destruct (rnt_cases x) as [|y E|y E|y E|a b E|a b E]; try apply tequiv_refl; subst x; intros v H.
+    - (* ! -z y  ->  -n y *)
+      cbn [teval] in *. change (T_NOT =? T_NOT) with true in H. change (T_EMP =? T_NOT) with false in H.
+      change (T_NEMP =? T_NOT) with false. cbn iota in *.
+      destruct y as [w| | |]; try discriminate. inversion H. f_equal.
+      unfold untest. change (T_EMP =? T_EMP) with true. change (T_NEMP =? T_EMP) with false.
+      change (T_NEMP =? T_NEMP) with true. cbn iota. symmetry. apply negb_involutive.
+    - cbn [teval] in *. change (T_NOT =? T_NOT) with true in H. change (T_NEMP =? T_NOT) with false in H.
+      change (T_EMP =? T_NOT) with false. cbn iota in *.
+      destruct y as [w| | |]; try discriminate. inversion H. reflexivity.
+    - cbn [teval] in H. change (T_NOT =? T_NOT) with true in H. cbn iota in H.
+      apply negb_negb_ok in H. exact H.
+    - (* ! (a == b)  ->  a != b *)
+      cbn [teval] in *. change (T_NOT =? T_NOT) with true in H. cbn iota in H.
+      change ((T_MATCH =? T_AND) || (T_MATCH =? T_OR)) with false in H.
+      change ((T_NOMATCH =? T_AND) || (T_NOMATCH =? T_OR)) with false. cbn iota in *.
+      destruct a as [aw| | |]; try discriminate. destruct b as [bw| | |]; try discriminate.
+      change ((T_MATCH =? T_MATCHSHORT) || (T_MATCH =? T_MATCH)) with true in H.
+      change ((T_NOMATCH =? T_MATCHSHORT) || (T_NOMATCH =? T_MATCH)) with false.
+      change (T_NOMATCH =? T_NOMATCH) with true. cbn iota in *. exact H.
+    - cbn [teval] in *. change (T_NOT =? T_NOT) with true in H. cbn iota in H.
+      change ((T_NOMATCH =? T_AND) || (T_NOMATCH =? T_OR)) with false in H.
+      change ((T_MATCH =? T_AND) || (T_MATCH =? T_OR)) with false. cbn iota in *.
+      destruct a as [aw| | |]; try discriminate. destruct b as [bw| | |]; try discriminate.
+      change ((T_NOMATCH =? T_MATCHSHORT) || (T_NOMATCH =? T_MATCH)) with false in H.
+      change (T_NOMATCH =? T_NOMATCH) with true in H.
+      change ((T_MATCH =? T_MATCHSHORT) || (T_MATCH =? T_MATCH)) with true. cbn iota in *.
+      inversion H. rewrite negb_involutive. reflexivity.
+  Qed.
+
+  Lemma rnt_word : forall w, remove_negate_test (TWord w) = (TWord w, false).
+  Proof. reflexivity. Qed.
+
+  (* operand chain for a word operand: unquote? ; removeNegate ; walk gives a word with the same views *)
+  Lemma word_chain_unquote : forall f w x1 m1 x2 m2 x3 m3,
+    wf_word w = true ->
+    unquote_params (TWord w) = (x1, m1) -> remove_negate_test x1 = (x2, m2) -> walk_test f x2 = Some (x3, m3) ->
+    exists w3, x3 = TWord w3 /\ lit w3 = lit w.
+  Proof.
+    intros f w x1 m1 x2 m2 x3 m3 Hwf H1 H2 H3.
+    destruct (unquote_word w) as (w1 & E1 & L1 & W1). rewrite H1 in E1. cbn [fst] in E1. subst x1.
+    rewrite rnt_word in H2. inversion H2. subst x2 m2.
+    apply walk_test_word in H3. inversion H3. subst x3 m3.
+    eexists. split; [reflexivity|]. rewrite simplify_word_literal; [exact L1|]. rewrite W1. exact Hwf.
+  Qed.
+
+  Lemma word_chain_plain : forall f w x2 m2 x3 m3,
+    wf_word w = true ->
+    remove_negate_test (TWord w) = (x2, m2) -> walk_test f x2 = Some (x3, m3) ->
+    exists w3, x3 = TWord w3 /\ expand_q pval w3 = expand_q pval w.
+  Proof.
+    intros f w x2 m2 x3 m3 Hwf H2 H3.
+    rewrite rnt_word in H2. inversion H2. subst x2 m2.
+    apply walk_test_word in H3. inversion H3. subst x3 m3.
+    eexists. split; [reflexivity|]. apply simplify_word_expand. exact Hwf.
+  Qed.
+
+  Lemma walk_test_sound : forall f e e' m,
+    walk_test f e = Some (e', m) -> wf_test e = true -> tequiv e e'.
+  Proof.
+    induction f as [|f IH]; intros e e' m H Hwf; [discriminate|].
+    cbn [walk_test] in H. destruct e as [w|op x|op x y|x].
+    - destruct (simplify_word w) as [w' mw] eqn:Hw. inversion H. subst e' m.
+      intros b Hb. cbn [teval] in *. cbn [wf_test] in Hwf.
+      replace w' with (fst (simplify_word w)) by (rewrite Hw; reflexivity).
+      rewrite simplify_word_literal; auto.
+    - (* TUn *)
+      cbn [wf_test] in Hwf.
+      destruct (unquote_params x) as [x1 m1] eqn:H1.
+      destruct (walk_test f x1) as [[x2 m2]|] eqn:H2; [|discriminate]. inversion H. subst e' m.
+      intros b Hb. cbn [teval] in *.
+      destruct (op =? T_NOT) eqn:Hop.
+      + assert (E : tequiv x x2).
+        { eapply tequiv_trans.
+          - pose proof (unquote_equiv x) as P. rewrite H1 in P. exact P.
+          - eapply IH; eauto. pose proof (unquote_wf x Hwf) as P. rewrite H1 in P. exact P. }
+        destruct (tev x) as [bx|c|] eqn:Hx; try discriminate.
+        rewrite (E bx Hx). exact Hb.
+      + destruct x as [w| | |]; try discriminate.
+        destruct (unquote_word w) as (w1 & E1 & L1 & W1). rewrite H1 in E1. cbn [fst] in E1. subst x1.
+        apply walk_test_word in H2. inversion H2. subst x2 m2.
+        rewrite simplify_word_literal; [rewrite L1; exact Hb|]. rewrite W1. exact Hwf.
+    - (* TBin *)
+      cbn [wf_test] in Hwf. apply andb_true_iff in Hwf. destruct Hwf as [Hwx Hwy].
+      destruct (unquote_params x) as [x1 m1] eqn:H1.
+      destruct (remove_negate_test x1) as [x2 m2] eqn:H2.
+      destruct (if op =? T_MATCHSHORT then (T_MATCH, true) else (op, false)) as [op1 m3] eqn:H3.
+      destruct (if (op1 =? T_MATCH) || (op1 =? T_NOMATCH) || (op1 =? T_REMATCH) then (y, false) else unquote_params y) as [y1 m4] eqn:H4.
+      destruct (remove_negate_test y1) as [y2 m5] eqn:H5.
+      destruct (walk_test f x2) as [[x3 m6]|] eqn:H6; [|discriminate].
+      destruct (walk_test f y2) as [[y3 m7]|] eqn:H7; [|discriminate].
+      inversion H. subst e' m. clear H.
+      intros b Hb. cbn [teval] in Hb.
+      destruct ((op =? T_AND) || (op =? T_OR)) eqn:Hlog.
+      + (* && || : both sides are arbitrary test expressions *)
+        assert (Hop1 : op1 = op).
+        { destruct (op =? T_MATCHSHORT) eqn:E; inversion H3; auto.
+          apply N.eqb_eq in E. subst op. discriminate. }
+        subst op1.
+        assert (Hnm : (op =? T_MATCH) || (op =? T_NOMATCH) || (op =? T_REMATCH) = false).
+        { unfold T_AND, T_OR, T_MATCH, T_NOMATCH, T_REMATCH in *.
+          destruct (op =? 4) eqn:A; [apply N.eqb_eq in A; subst; reflexivity|].
+          destruct (op =? 5) eqn:B; [apply N.eqb_eq in B; subst; reflexivity|discriminate]. }
+        rewrite Hnm in H4.
+        assert (Ex : tequiv x x3).
+        { eapply tequiv_trans; [pose proof (unquote_equiv x) as P; rewrite H1 in P; exact P|].
+          eapply tequiv_trans; [pose proof (rnt_equiv x1) as P; rewrite H2 in P; exact P|].
+          eapply IH; eauto.
+          pose proof (unquote_wf x Hwx) as P. rewrite H1 in P. cbn [fst] in P.
+          pose proof (rnt_wf x1 P) as Q. rewrite H2 in Q. exact Q. }
+        assert (Ey : tequiv y y3).
+        { eapply tequiv_trans; [pose proof (unquote_equiv y) as P; rewrite H4 in P; exact P|].
+          eapply tequiv_trans; [pose proof (rnt_equiv y1) as P; rewrite H5 in P; exact P|].
+          eapply IH; eauto.
+          pose proof (unquote_wf y Hwy) as P. rewrite H4 in P. cbn [fst] in P.
+          pose proof (rnt_wf y1 P) as Q. rewrite H5 in Q. exact Q. }
+        cbn [teval]. rewrite Hlog.
+        destruct (tev x) as [bx|c|] eqn:Hx; destruct (tev y) as [by_|c'|] eqn:Hy; try discriminate.
+        rewrite (Ex bx Hx), (Ey by_ Hy). exact Hb.
+      + (* every other operator has word operands *)
+        destruct x as [xw| | |]; try discriminate. destruct y as [yw| | |]; try discriminate.
+        cbn [wf_test] in Hwx, Hwy.
+        destruct (word_chain_unquote f xw _ _ _ _ _ _ Hwx H1 H2 H6) as (xw3 & Ex3 & Lx). subst x3.
+        destruct (op =? T_MATCHSHORT) eqn:E0.
+        * (* = becomes == *)
+          inversion H3. subst op1 m3. apply N.eqb_eq in E0. subst op.
+          change ((T_MATCH =? T_MATCH) || (T_MATCH =? T_NOMATCH) || (T_MATCH =? T_REMATCH)) with true in H4.
+          inversion H4. subst y1 m4.
+          destruct (word_chain_plain f yw _ _ _ _ Hwy H5 H7) as (yw3 & Ey3 & Qy). subst y3.
+          cbn [teval] in *. change ((T_MATCH =? T_AND) || (T_MATCH =? T_OR)) with false.
+          change ((T_MATCHSHORT =? T_MATCHSHORT) || (T_MATCHSHORT =? T_MATCH)) with true in Hb.
+          change ((T_MATCH =? T_MATCHSHORT) || (T_MATCH =? T_MATCH)) with true.
+          cbn iota in *. rewrite Lx, Qy. exact Hb.
+        * inversion H3. subst op1 m3.
+          destruct ((op =? T_MATCH) || (op =? T_NOMATCH) || (op =? T_REMATCH)) eqn:Hpat.
+          -- inversion H4. subst y1 m4.
+             destruct (word_chain_plain f yw _ _ _ _ Hwy H5 H7) as (yw3 & Ey3 & Qy). subst y3.
+             cbn [teval]. rewrite Hlog. rewrite E0 in *. cbn [orb] in *.
+             assert (Ly : lit yw3 = lit yw) by (unfold literal; rewrite Qy; reflexivity).
+             rewrite Lx, Qy, Ly. exact Hb.
+          -- destruct (word_chain_unquote f yw _ _ _ _ _ _ Hwy H4 H5 H7) as (yw3 & Ey3 & Ly). subst y3.
+             cbn [teval]. rewrite Hlog. rewrite E0 in *. cbn [orb] in *.
+             assert (Hm : (op =? T_MATCH) = false /\ (op =? T_NOMATCH) = false).
+             { destruct (op =? T_MATCH); [discriminate|]. destruct (op =? T_NOMATCH); [discriminate|]. auto. }
+             destruct Hm as [Hm1 Hm2]. rewrite Hm1, Hm2 in *. rewrite Lx, Ly. exact Hb.
+    - (* TParen *)
+      cbn [wf_test] in Hwf.
+      destruct (remove_parens_test x) as [x1 m1] eqn:H1.
+      destruct (remove_negate_test x1) as [x2 m2] eqn:H2.
+      destruct (walk_test f x2) as [[x3 m3]|] eqn:H3; [|discriminate]. inversion H. subst e' m.
+      intros b Hb. cbn [teval] in *.
+      pose proof (rpt_wf x Hwf) as W1. rewrite H1 in W1. cbn [fst] in W1.
+      pose proof (rnt_wf x1 W1) as W2. rewrite H2 in W2. cbn [fst] in W2.
+      apply (IH _ _ _ H3 W2).
+      pose proof (rnt_equiv x1) as P2. rewrite H2 in P2. apply P2.
+      pose proof (rpt_equiv x) as P1. rewrite H1 in P1. apply P1. exact Hb.
+  Qed.
+
+  Lemma walk_test_total : forall f e, (tsize e <= f)%nat -> exists r, walk_test f e = Some r.
+  Proof.
+    induction f as [|f IH]; intros e Hs; [destruct e; cbn in Hs; lia|].
+    destruct e as [w|op x|op x y|x]; cbn [walk_test tsize] in *.
+    - destruct (simplify_word w). eauto.
+    - destruct (unquote_params x) as [x1 m1] eqn:H1.
+      pose proof (unquote_size x) as S1. rewrite H1 in S1. cbn [fst] in S1.
+      destruct (IH x1) as [[x2 m2] Hx]; [lia|]. rewrite Hx. eauto.
+    - destruct (unquote_params x) as [x1 m1] eqn:H1.
+      destruct (remove_negate_test x1) as [x2 m2] eqn:H2.
+      destruct (if op =? T_MATCHSHORT then (T_MATCH, true) else (op, false)) as [op1 m3].
+      destruct (if (op1 =? T_MATCH) || (op1 =? T_NOMATCH) || (op1 =? T_REMATCH) then (y, false) else unquote_params y) as [y1 m4] eqn:H4.
+      destruct (remove_negate_test y1) as [y2 m5] eqn:H5.
+      pose proof (unquote_size x) as S1. rewrite H1 in S1. cbn [fst] in S1.
+      pose proof (proj1 (rnt_size x1)) as S2. rewrite H2 in S2. cbn [fst] in S2.
+      assert (S4 : tsize y1 = tsize y).
+      { destruct ((op1 =? T_MATCH) || (op1 =? T_NOMATCH) || (op1 =? T_REMATCH)); [inversion H4; reflexivity|].
+        pose proof (unquote_size y) as S. rewrite H4 in S. exact S. }
+      pose proof (proj1 (rnt_size y1)) as S5. rewrite H5 in S5. cbn [fst] in S5.
+      destruct (IH x2) as [[x3 m6] Hx]; [lia|]. destruct (IH y2) as [[y3 m7] Hy]; [lia|].
+      rewrite Hx, Hy. eauto.
+    - destruct (remove_parens_test x) as [x1 m1] eqn:H1.
+      destruct (remove_negate_test x1) as [x2 m2] eqn:H2.
+      pose proof (rpt_size x) as S1. rewrite H1 in S1. cbn [fst] in S1.
+      pose proof (proj1 (rnt_size x1)) as S2. rewrite H2 in S2. cbn [fst] in S2.
+      destruct (IH x2) as [[x3 m3] Hx]; [lia|]. rewrite Hx. eauto.
+  Qed.
+
+  Theorem simplify_test_sound : forall e,
+    wf_test e = true ->
+    exists e' m, simplify_test e = Some (e', m) /\ forall b, tev e = Ok b -> tev e' = Ok b.
+  Proof.
+    intros e Hwf. unfold simplify_test, simplify_test_fuel.
+    destruct (remove_parens_test e) as [x1 m1] eqn:H1.
+    destruct (remove_negate_test x1) as [x2 m2] eqn:H2.
+    pose proof (rpt_size e) as S1. rewrite H1 in S1. cbn [fst] in S1.
+    pose proof (proj1 (rnt_size x1)) as S2. rewrite H2 in S2. cbn [fst] in S2.
+    destruct (walk_test_total (tsize e) x2) as [[x3 m3] Hx]; [lia|].
+    rewrite Hx. exists x3, (m1 || m2 || m3). split; [reflexivity|].
+    pose proof (rpt_wf e Hwf) as W1. rewrite H1 in W1. cbn [fst] in W1.
+    pose proof (rnt_wf x1 W1) as W2. rewrite H2 in W2. cbn [fst] in W2.
+    intros b Hb. apply (walk_test_sound _ _ _ _ Hx W2).
+    pose proof (rnt_equiv x1) as P2. rewrite H2 in P2. apply P2.
+    pose proof (rpt_equiv e) as P1. rewrite H1 in P1. apply P1. exact Hb.
+  Qed.
+End TestProofs.
+
+
+(* ---------------------------------------------------------------- subshells *)
+
+Definition walk_stmts (f : nat) : list stmt -> option (list stmt * bool) :=
+  fix go (l : list stmt) : option (list stmt * bool) :=
+    match l with
+    | [] => Some ([], false)
+    | St p c' :: r =>
+        match walk_cmd f c', go r with
+        | Some (c2, m2), Some (r2, m3) => Some (St p c2 :: r2, m2 || m3)
+        | _, _ => None
+        end
+    end.
+
+Lemma walk_cmd_sub : forall f ss,
+  walk_cmd (S f) (CSub ss) =
+  let (ss1, m1) := inline_subshell ss in
+  match walk_stmts f ss1 with
+  | Some (ss2, m2) => Some (CSub ss2, m1 || m2)
+  | None => None
+  end.
+Proof. reflexivity. Qed.
+
+Lemma csize_sub : forall ss, csize (CSub ss) = S (ssize ss).
+Proof. reflexivity. Qed.
+Lemma ssize_cons : forall p c r, ssize (St p c :: r) = S (csize c + ssize r).
+Proof. reflexivity. Qed.
+
+Lemma csize_pos : forall c, (1 <= csize c)%nat.
+Proof. destruct c; cbn; lia. Qed.
+
+(* inline_inner by size induction *)
+Lemma inline_inner_size : forall n c r, (csize c <= n)%nat -> inline_inner c = Some r -> (ssize r < csize c)%nat.
+Proof.
+  induction n as [|n IH]; intros c r Hs H; [pose proof (csize_pos c); lia|].
+  destruct c as [inner|id]; [|discriminate].
+  cbn [inline_inner] in H. inversion H. clear H. rewrite csize_sub in *.
+  destruct inner as [|[[|] c'] [|q rest]]; try lia.
+  destruct (inline_inner c') as [r'|] eqn:E; [|lia].
+  rewrite ssize_cons in *.
+  assert (ssize r' < csize c')%nat by (eapply IH; eauto; lia). lia.
+Qed.
+
+Lemma inline_subshell_size : forall ss,
+  (ssize (fst (inline_subshell ss)) <= ssize ss)%nat /\
+  (snd (inline_subshell ss) = true -> (ssize (fst (inline_subshell ss)) < ssize ss)%nat) /\
+  (snd (inline_subshell ss) = false -> fst (inline_subshell ss) = ss).
+Proof.
+  intros ss. unfold inline_subshell.
+  destruct ss as [|[[|] c] [|q rest]]; cbn [fst snd]; try (repeat split; intros; auto; try lia; discriminate).
+  destruct (inline_inner c) as [r|] eqn:E; cbn [fst snd]; try (repeat split; auto; try lia; discriminate).
+  pose proof (inline_inner_size _ _ _ (le_n _) E) as S. rewrite ssize_cons. cbn [ssize] in *.
+  repeat split; intros; try lia; try discriminate.
+Qed.
+
+Lemma walk_cmd_size : forall f c c' m, walk_cmd f c = Some (c', m) -> (csize c' <= csize c)%nat.
+Proof.
+  induction f as [|f IH]; intros c c' m H; [discriminate|].
+  destruct c as [ss|id]; [|cbn in H; inversion H; lia].
+  rewrite walk_cmd_sub in H.
+  destruct (inline_subshell ss) as [ss1 m1] eqn:H1.
+  destruct (walk_stmts f ss1) as [[ss2 m2]|] eqn:H2; [|discriminate]. inversion H. subst c' m.
+  pose proof (proj1 (inline_subshell_size ss)) as S1. rewrite H1 in S1. cbn [fst] in S1.
+  rewrite !csize_sub.
+  assert (ssize ss2 <= ssize ss1)%nat; [|lia].
+  clear H H1 S1. revert ss2 m2 H2. induction ss1 as [|[p c1] r IHr]; intros ss2 m2 H2.
+  - cbn in H2. inversion H2. lia.
+  - cbn [walk_stmts] in H2. fold (walk_stmts f) in H2.
+    destruct (walk_cmd f c1) as [[c2 mc]|] eqn:Hc; [|discriminate].
+    destruct (walk_stmts f r) as [[r2 mr]|] eqn:Hr; [|discriminate].
+    inversion H2. subst. rewrite !ssize_cons. apply IH in Hc. specialize (IHr _ _ eq_refl). lia.
+Qed.
+
+Lemma walk_stmts_size : forall f l l' m, walk_stmts f l = Some (l', m) -> (ssize l' <= ssize l)%nat.
+Proof.
+  intros f. induction l as [|[p c1] r IHr]; intros l' m H.
+  - cbn in H. inversion H. lia.
+  - cbn [walk_stmts] in H. fold (walk_stmts f) in H.
+    destruct (walk_cmd f c1) as [[c2 mc]|] eqn:Hc; [|discriminate].
+    destruct (walk_stmts f r) as [[r2 mr]|] eqn:Hr; [|discriminate].
+    inversion H. subst. rewrite !ssize_cons. apply walk_cmd_size in Hc. specialize (IHr _ _ eq_refl). lia.
+Qed.
+
+Lemma ssize_neq : forall a b, (ssize a < ssize b)%nat -> a <> b.
+Proof. intros a b H E. subst. lia. Qed.
+
+Lemma walk_cmd_mod : forall f c c' m, walk_cmd f c = Some (c', m) -> mod_spec c c' m.
+Proof.
+  induction f as [|f IH]; intros c c' m H; [discriminate|].
+  destruct c as [ss|id]; [|cbn in H; inversion H; split; [reflexivity|discriminate]].
+  rewrite walk_cmd_sub in H.
+  destruct (inline_subshell ss) as [ss1 m1] eqn:H1.
+  destruct (walk_stmts f ss1) as [[ss2 m2]|] eqn:H2; [|discriminate]. inversion H. subst c' m. clear H.
+  assert (L : mod_spec ss1 ss2 m2).
+  { clear H1. revert ss2 m2 H2. induction ss1 as [|[p c1] r IHr]; intros ss2 m2 H2.
+    - cbn in H2. inversion H2. split; [reflexivity|discriminate].
+    - cbn [walk_stmts] in H2. fold (walk_stmts f) in H2.
+      destruct (walk_cmd f c1) as [[c2 mc]|] eqn:Hc; [|discriminate].
+      destruct (walk_stmts f r) as [[r2 mr]|] eqn:Hr; [|discriminate].
+      inversion H2. subst ss2 m2.
+      destruct (IH _ _ _ Hc) as [Cf Ct]. destruct (IHr _ _ eq_refl) as [Rf Rt].
+      split; intros Hm.
+      + destruct mc, mr; try discriminate. f_equal; [f_equal|]; auto.
+      + intros E. inversion E. destruct mc; [apply Ct; auto|]. destruct mr; [apply Rt; auto|]. discriminate. }
+  destruct L as [Lf Lt].
+  pose proof (inline_subshell_size ss) as (S & St' & Sf). rewrite H1 in S, St', Sf. cbn [fst snd] in *.
+  pose proof (walk_stmts_size _ _ _ _ H2) as S2.
+  destruct m1.
+  - split; [discriminate|]. intros _ E. inversion E. specialize (St' eq_refl). subst ss2. lia.
+  - rewrite (Sf eq_refl) in *. cbn [orb].
+    split; intros Hm; [f_equal; auto|]. intros E. inversion E. apply Lt; auto.
+Qed.
+
+Lemma walk_cmd_total : forall f c, (csize c <= f)%nat -> exists r, walk_cmd f c = Some r.
+Proof.
+  induction f as [|f IH]; intros c Hs; [pose proof (csize_pos c); lia|].
+  destruct c as [ss|id]; [|cbn; eauto].
+  rewrite walk_cmd_sub. rewrite csize_sub in Hs.
+  destruct (inline_subshell ss) as [ss1 m1] eqn:H1.
+  pose proof (proj1 (inline_subshell_size ss)) as S1. rewrite H1 in S1. cbn [fst] in S1.
+  assert (exists r, walk_stmts f ss1 = Some r) as [[ss2 m2] E].
+  { assert (Hb : (ssize ss1 <= f)%nat) by lia. clear H1 S1 Hs.
+    induction ss1 as [|[p c1] r IHr]; [cbn; eauto|].
+    rewrite ssize_cons in Hb. cbn [walk_stmts]. fold (walk_stmts f).
+    destruct (IH c1) as [[c2 mc] Hc]; [lia|]. destruct IHr as [[r2 mr] Hr]; [lia|].
+    rewrite Hc, Hr. eauto. }
+  rewrite E. eauto.
+Qed.
+
+Theorem simplify_cmd_mod : forall c c' m, simplify_cmd c = Some (c', m) -> (m = true <-> c' <> c).
+Proof.
+  intros c c' m H. destruct (walk_cmd_mod _ _ _ _ H) as [Hf Ht]. split; [exact Ht|].
+  intros Hne. destruct m; [reflexivity|]. exfalso. apply Hne. auto.
+Qed.
+
+Section CmdProofs.
+  Variable State : Type.
+  Variable run_other : N -> State -> State * str * Z.
+  Variable modify : State -> State * str * Z -> State * str * Z.
+  Variable set_status : State -> Z -> State.
+
+  Notation sem := (sem_cmd State run_other modify set_status).
+
+  Fixpoint sem_stmts (l : list stmt) (s0 : State) : State * str * Z :=
+    match l with
+    | [] => (s0, [], 0%Z)
+    | St p c' :: r =>
+        let '(s1, o1, z1) := if p then sem c' s0 else modify s0 (sem c' s0) in
+        match r with
+        | [] => (s1, o1, z1)
+        | _ => let '(s2, o2, z2) := sem_stmts r (set_status s1 z1) in (s2, o1 ++ o2, z2)
+        end
+    end.
+
+  Definition subrun (l : list stmt) (s : State) : State * str * Z :=
+    let '(_, o, z) := sem_stmts l s in (s, o, z).
+
+  Lemma sem_sub : forall ss s, sem (CSub ss) s = subrun ss s.
+  Proof. reflexivity. Qed.
+
+  Lemma sem_stmts_single : forall c s, sem_stmts [St true c] s = sem c s.
+  Proof. intros c s. cbn [sem_stmts]. destruct (sem c s) as [[s1 o1] z1]. reflexivity. Qed.
+
+  Lemma inline_inner_sound : forall n c r, (csize c <= n)%nat -> inline_inner c = Some r ->
+    forall s, sem c s = subrun r s.
+  Proof.
+    induction n as [|n IH]; intros c r Hs H s; [pose proof (csize_pos c); lia|].
+    destruct c as [inner|id]; [|discriminate].
+    cbn [inline_inner] in H. inversion H. clear H. rewrite csize_sub in Hs.
+    destruct inner as [|[[|] c'] [|q rest]]; try apply sem_sub.
+    destruct (inline_inner c') as [r'|] eqn:E; [|apply sem_sub].
+    rewrite sem_sub. unfold subrun at 1. rewrite sem_stmts_single.
+    rewrite ssize_cons in Hs. rewrite (IH c' r'); [|lia|exact E].
+    unfold subrun. destruct (sem_stmts r' s) as [[s1 o1] z1]. reflexivity.
+  Qed.
+
+  Lemma inline_subshell_sound : forall ss s, subrun (fst (inline_subshell ss)) s = subrun ss s.
+  Proof.
+    intros ss s. unfold inline_subshell.
+    destruct ss as [|[[|] c] [|q rest]]; try reflexivity.
+    destruct (inline_inner c) as [r|] eqn:E; try reflexivity. cbn [fst].
+    unfold subrun at 2. rewrite sem_stmts_single.
+    rewrite (inline_inner_sound _ _ _ (le_n _) E). unfold subrun.
+    destruct (sem_stmts r s) as [[s1 o1] z1]. reflexivity.
+  Qed.
+
+  Lemma walk_cmd_sound : forall f c c' m, walk_cmd f c = Some (c', m) -> forall s, sem c' s = sem c s.
+  Proof.
+    induction f as [|f IH]; intros c c' m H s; [discriminate|].
+    destruct c as [ss|id]; [|cbn in H; inversion H; reflexivity].
+    rewrite walk_cmd_sub in H.
+    destruct (inline_subshell ss) as [ss1 m1] eqn:H1.
+    destruct (walk_stmts f ss1) as [[ss2 m2]|] eqn:H2; [|discriminate]. inversion H. subst c' m. clear H.
+    rewrite !sem_sub.
+    pose proof (inline_subshell_sound ss s) as P. rewrite H1 in P. cbn [fst] in P. rewrite <- P.
+    assert (L : forall s0, sem_stmts ss2 s0 = sem_stmts ss1 s0).
+    { clear H1 P. revert ss2 m2 H2. induction ss1 as [|[p c1] r IHr]; intros ss2 m2 H2 s0.
+      - cbn in H2. inversion H2. reflexivity.
+      - cbn [walk_stmts] in H2. fold (walk_stmts f) in H2.
+        destruct (walk_cmd f c1) as [[c2 mc]|] eqn:Hc; [|discriminate].
+        destruct (walk_stmts f r) as [[r2 mr]|] eqn:Hr; [|discriminate].
+        inversion H2. subst ss2 m2.
+        pose proof (IH _ _ _ Hc) as Ec. specialize (IHr _ _ eq_refl).
+        cbn [sem_stmts].
+        rewrite (Ec s0).
+        destruct (if p then sem c1 s0 else modify s0 (sem c1 s0)) as [[s1 o1] z1].
+        destruct r as [|q r'].
+        + cbn in Hr. inversion Hr. reflexivity.
+        + assert (r2 <> []).
+          { destruct q as [pq cq]. cbn [walk_stmts] in Hr. fold (walk_stmts f) in Hr.
+            destruct (walk_cmd f cq) as [[? ?]|]; [|discriminate].
+            destruct (walk_stmts f r') as [[? ?]|]; [|discriminate]. inversion Hr. discriminate. }
+          destruct r2 as [|q2 r2']; [contradiction|].
+          rewrite (IHr (set_status s1 z1)). reflexivity. }
+    unfold subrun. rewrite L. reflexivity.
+  Qed.
+
+  Theorem simplify_cmd_sound : forall c,
+    exists c' m, simplify_cmd c = Some (c', m) /\ forall s, sem c' s = sem c s.
+  Proof.
+    intros c. destruct (walk_cmd_total (csize c) c (le_n _)) as [[c' m] H].
+    exists c', m. split; [exact H|]. eapply walk_cmd_sound; eauto.
+  Qed.
+End CmdProofs.
+
+Theorem simplify_word_mod_iff : forall w, snd (simplify_word w) = true <-> fst (simplify_word w) <> w.
+Proof.
+  intros w. destruct (simplify_word_mod w) as [Hf Ht]. split; [exact Ht|].
+  intros Hne. destruct (snd (simplify_word w)); [reflexivity|]. exfalso. apply Hne. auto.
+Qed.
+
+
+(* ------------------------------------------------ a concrete decimal itoa / atoi *)
+
+Fixpoint uint_to_str (u : Decimal.uint) : str :=
+  match u with
+  | Nil => []
+  | D0 r => 48 :: uint_to_str r | D1 r => 49 :: uint_to_str r | D2 r => 50 :: uint_to_str r
+  | D3 r => 51 :: uint_to_str r | D4 r => 52 :: uint_to_str r | D5 r => 53 :: uint_to_str r
+  | D6 r => 54 :: uint_to_str r | D7 r => 55 :: uint_to_str r | D8 r => 56 :: uint_to_str r
+  | D9 r => 57 :: uint_to_str r
+  end.
+Fixpoint str_to_uint (s : str) : Decimal.uint :=
+  match s with
+  | [] => Nil
+  | c :: r =>
+      let u := str_to_uint r in
+      if c =? 48 then D0 u else if c =? 49 then D1 u else if c =? 50 then D2 u else if c =? 51 then D3 u
+      else if c =? 52 then D4 u else if c =? 53 then D5 u else if c =? 54 then D6 u else if c =? 55 then D7 u
+      else if c =? 56 then D8 u else if c =? 57 then D9 u else Nil
+  end.
+Definition itoa_dec (z : Z) : str :=
+  match Z.to_int z with
+  | Decimal.Pos u => uint_to_str u
+  | Decimal.Neg u => 45 :: uint_to_str u
+  end.
+Definition atoi_dec (s : str) : Z :=
+  match s with
+  | 45 :: t => Z.of_int (Decimal.Neg (str_to_uint t))
+  | _ => Z.of_int (Decimal.Pos (str_to_uint s))
+  end.
+
+Lemma str_to_uint_to_str : forall u, str_to_uint (uint_to_str u) = u.
+Proof. induction u; cbn; congruence. Qed.
+
+Lemma uint_to_str_head : forall u, match uint_to_str u with 45 :: _ => False | _ => True end.
+Proof. destruct u; cbn; exact I. Qed.
+
+Lemma atoi_itoa_dec : forall z, atoi_dec (itoa_dec z) = z.
+Proof.
+  intros z. unfold itoa_dec. destruct (Z.to_int z) as [u|u] eqn:E.
+  - unfold atoi_dec. pose proof (uint_to_str_head u) as H.
+    destruct (uint_to_str u) as [|c r] eqn:Eu.
+    + rewrite <- Eu, str_to_uint_to_str, <- E. apply DecimalZ.of_to.
+    + assert (Hc : c <> 45) by (intros ->; exact H).
+      replace (match c :: r with 45 :: t => Z.of_int (Decimal.Neg (str_to_uint t)) | _ => Z.of_int (Decimal.Pos (str_to_uint (c :: r))) end)
+        with (Z.of_int (Decimal.Pos (str_to_uint (c :: r)))).
+      * rewrite <- Eu, str_to_uint_to_str, <- E. apply DecimalZ.of_to.
+      * clear -Hc. destruct c as [|p]; [reflexivity|].
+        do 6 (destruct p as [p|p|]; try reflexivity). exfalso; apply Hc; reflexivity.
+  - unfold atoi_dec. rewrite str_to_uint_to_str, <- E. apply DecimalZ.of_to.
+Qed.
+
+Lemma itoa_dec_not_name : forall z, valid_name (itoa_dec z) = false.
+Proof.
+  intros z. unfold itoa_dec. destruct (Z.to_int z) as [u|u]; [|reflexivity].
+  destruct u; reflexivity.
+Qed.
